@@ -56,3 +56,12 @@ def force(s: int, t: int) -> bytes:
     b = (r1 ^ i2) & 0xFF
     assert step(step(s, a), b) == t
     return bytes((a, b))
+
+
+def fcs_fast(data: bytes) -> int:
+    """Table-driven equivalent of fcs() for megabyte-sized inputs (the table is this module's own, built from step())."""
+    reg = 0xFFFF
+    t = _T
+    for b in data:
+        reg = (reg >> 8) ^ t[(reg ^ b) & 0xFF]
+    return reg ^ 0xFFFF
